@@ -214,7 +214,11 @@ Fixpoint fb_loop (fuel : nat) (int : str) (first : bool) (step : nat) (base : Z)
       end
   end.
 
-Definition frombase (s : str) (base : Z) : res bint :=
+(* the guard of the fast path is scraped (Gen.frombase_short_guarded): true = the repaired code
+     if #s < step and s:find('^[+-]?%w+$') then return bint_frominteger(tonumber(s, base)) end
+   false = the code before the repair (every short string went to tonumber, which skips surrounding white space) *)
+Definition shape_ok (s : str) : bool := match split_sign s with Some _ => true | None => false end.
+Definition frombase_pol (guarded : bool) (s : str) (base : Z) : res bint :=
   if negb ((2 <=? base) && (base <=? 36)) then Err ENone else
   match lidiv maxint base with
   | None => Err EDivZero
@@ -222,7 +226,7 @@ Definition frombase (s : str) (base : Z) : res bint :=
       match basepow_loop 64 base limit 0 1 with
       | None => Err EFuel
       | Some (step, _) =>
-          if (length s <? step)%nat then
+          if (length s <? step)%nat && (if guarded then shape_ok s else true) then
             match lua_tonumber_base s base with
             | None => Err ENone
             | Some v => Ok (frominteger v)
@@ -238,6 +242,8 @@ Definition frombase (s : str) (base : Z) : res bint :=
             end
       end
   end.
+
+Definition frombase := frombase_pol frombase_short_guarded.
 
 (* ---------- bn.lua ---------- *)
 (* local from(base=2, ..., int): n = (n * base) + d per digit, then the sign *)
